@@ -126,8 +126,72 @@ def type_witness(check: Check, repo: Repo, mods: Iterable[Module], rule: str = "
             check.ob(rule, (m.rel, 0, "<module>"), f"{_rel(m)}: type-checks", True, "no run-time-failure class error", nontrivial=False)
         for ln, code, msg in bad:
             fn = _function_at(m, ln)
+            ev = _narrowing_evidence(m, ln)
+            if ev:
+                # mypy does not follow a type test that was stored in a local (`ok = isinstance(x, T)` ...
+                # `if not ok: return`): the value *is* narrowed on every path, the message is an artefact
+                check.ob(rule, (m.rel, ln, fn), f"[{code}] {msg[:140]}", True,
+                         f"narrowed by a dominating test mypy does not track: {ev}")
+                continue
             check.ob(rule, (m.rel, ln, fn), f"[{code}] {msg[:140]}", False, "mypy: " + msg)
     check.note(mypy_errors=len(errs))
+
+
+_flows: dict[ast.AST, object] = {}
+
+
+def _narrowing_evidence(m: Module, line: int) -> str | None:
+    """A dominating type test (possibly through boolean locals) on a variable used on `line`."""
+    from sa.cfg import CFG
+    from sa.guards import FactFlow
+    from sa.loader import enclosing_function, unparse
+
+    names = [n for n in ast.walk(m.tree) if isinstance(n, ast.Name) and isinstance(n.ctx, ast.Load) and getattr(n, "lineno", -1) <= line <= getattr(n, "end_lineno", -1)]
+    # widen to the whole statement the line belongs to
+    stmt_names = []
+    for st in ast.walk(m.tree):
+        if isinstance(st, ast.stmt) and st.lineno <= line <= (st.end_lineno or st.lineno) and not isinstance(st, (ast.FunctionDef, ast.AsyncFunctionDef, ast.ClassDef, ast.If, ast.For, ast.While, ast.Try, ast.With)):
+            stmt_names += [n for n in ast.walk(st) if isinstance(n, ast.Name) and isinstance(n.ctx, ast.Load)]
+    seen = set()
+    for n in names + stmt_names:
+        fn = enclosing_function(n)
+        if fn is None or isinstance(fn, ast.Lambda):
+            continue
+        if fn not in _flows:
+            try:
+                _flows[fn] = FactFlow(CFG(fn))
+            except Exception:  # noqa: BLE001
+                _flows[fn] = None
+        flow = _flows[fn]
+        if flow is None:
+            continue
+        key = (n.id, n.lineno, n.col_offset)
+        if key in seen:
+            continue
+        seen.add(key)
+        facts = flow.facts_at(n)  # type: ignore[union-attr]
+        eqs = {f.name: f.expr for f in facts if f.kind == "eq"}
+        exprs = []
+        for f in facts:
+            if f.kind != "cond":
+                continue
+            exprs.append(f.expr)
+            for x in ast.walk(f.expr):
+                if isinstance(x, ast.Name) and x.id in eqs:
+                    exprs.append(eqs[x.id])
+                    for y in ast.walk(eqs[x.id]):
+                        if isinstance(y, ast.Name) and y.id in eqs:
+                            exprs.append(eqs[y.id])
+        for e in exprs:
+            for c in ast.walk(e):
+                if isinstance(c, ast.Call) and c.args and isinstance(c.args[0], ast.Name) and c.args[0].id == n.id:
+                    cn = unparse(c.func)
+                    if cn in ("isinstance", "callable", "hasattr", "issubclass") or (cn.startswith("is_") and cn.endswith("_type")) or cn.startswith("is_"):
+                        return f"`{unparse(c)[:60]}` (via `{unparse(e)[:50]}`)"
+                if isinstance(c, ast.Compare) and isinstance(c.left, ast.Name) and c.left.id == n.id and len(c.ops) == 1 \
+                        and isinstance(c.ops[0], (ast.Is, ast.IsNot)) and unparse(c.comparators[0]) == "None" and e is not c:
+                    return f"`{unparse(c)}` (via `{unparse(e)[:50]}`)"
+    return None
 
 
 def _function_at(m: Module, line: int) -> str:
